@@ -120,7 +120,7 @@ def body_build_match(I, X, ep="s", script="/", external=False, n=2):
         # variant digits); the others are fixed
         import uuid
 
-        pos = [14, 19, 0, 35, 9, 24, 13, 23][:n]
+        pos = [14, 19, 0, 35, 9, 24, 12, 22][:n]
         h = X.str("hex", n, minlen=n, maxcp=0x7F)
         X.assume(pall_in(h, [(0x30, 0x39), (0x61, 0x66)]))
         parts, last = [], 0
